@@ -31,7 +31,11 @@ taskTime / deferred queue / trigger):
              rational model (1 tick = 1/3 us), compared after quantisation to 1 us
   deferred : every subset of raising members of batches of 1..6, flat / each
              member deferring a child / chains / submitted by a task body,
-             drained by run_once and by run
+             drained by run_once and by run; every member is, in turn, a plain
+             function, a lambda, a functools.partial, a bound method, a callable
+             instance and a partial around a builtin (the kind of callable is
+             invisible to the model); task bodies likewise (subclass, or
+             FunctionTask / RecurringFunctionTask around each kind)
 Implementation-side oracle (`Oracle`, independent of the model): evaluates each
 clause of the property on the observed log — fired only while scheduled, due
 time as requested, never early, minimum (due, installation order) among the
@@ -39,7 +43,7 @@ pending, nothing due left after a completed pass, one heap entry per task and
 present iff flagged, recurring slots on the exact grid and strictly after
 installation, deferred calls == submissions.
 """
-import copy, glob, itertools, json, os, sys
+import copy, functools, glob, itertools, json, operator, os, sys
 from fractions import Fraction
 from . import core
 
@@ -51,7 +55,7 @@ RULE = ("dfs: all histories up to length 5 (quick) / 6 (thorough) plus those of 
         "4 tasks (canonical task naming) + 2 ways to advance time, colliding times; random: length-200 "
         "histories over 12 operation kinds; grid: recurring interval/offset/phase/clock-magnitude "
         "grid incl. 0.1, 0.3, 1/3 s; deferred: all raising subsets of batches <= 6 in 4 shapes x 2 "
-        "loops. distinct = distinct (stream, operation, event-shape, flag/outcome class) signatures; "
+        "loops x 6 kinds of callable per member. distinct = distinct (stream, operation, event-shape, flag/outcome class) signatures; "
         "trivial = an operation that emitted nothing and changed nothing")
 TRUSTED = ["lean/BacVerif/Model/Task.lean is a hand transcription of task.py/core.py (fixed tree), "
            "tied by the five correspondence streams",
@@ -79,6 +83,40 @@ class Boom(Exception):
 class Overrun(Exception):
     """raised by the virtual clock when one operation reads it too often: a loop of the code
     under test does not come to rest (e.g. run_once spinning on delta == 0.0)"""
+
+
+KINDS = 6      # plain function, lambda, functools.partial, bound method, callable instance,
+               # partial around a builtin (operator.call) — the model does not see the kind
+
+
+def as_callable(kind, work):
+    """wrap the zero-argument `work` as a callable of the given kind.  bacpypes promises to call
+    whatever is handed to deferred()/FunctionTask(): nothing but __call__ may be assumed
+    (partials and callable instances have no __name__, bound methods take no attributes, ...)"""
+    kind %= KINDS
+    if kind == 0:
+        def plain_function():
+            work()
+        return plain_function
+    if kind == 1:
+        return lambda: work()
+    if kind == 2:
+        def with_args(w, _x, key=None):
+            w()
+        return functools.partial(with_args, work, 1, key=2)
+    if kind == 3:
+        class Holder:
+            def method(self):
+                work()
+        return Holder().method
+    if kind == 4:
+        class Callable:
+            __slots__ = ()
+
+            def __call__(self):
+                work()
+        return Callable()
+    return functools.partial(operator.call, work)      # a partial around a builtin
 
 
 class Trigger:
@@ -150,6 +188,7 @@ class Impl:
         self.loops = 0
         self.overrun = False
         self.snaps = {}
+        self.fn_ids, self.fn_keep = {}, []
 
     # ---- scripted environment -------------------------------------------
     def make_task(self, idx, spec):
@@ -163,36 +202,36 @@ class Impl:
             if spec["raises"]:
                 raise Boom(("t", idx))
 
-        if spec["rec"]:
-            if idx % 2 == 0:
-                class HRec(bt.RecurringTask):
-                    def process_task(self):
-                        body(self)
-                t = HRec()
-            else:
-                t = bt.RecurringFunctionTask(None, lambda: body(t))
+        kind = spec.get("kind", idx % 2)
+        holder = []
+        if kind == 0:
+            base = bt.RecurringTask if spec["rec"] else bt.OneShotTask
+
+            class HTask(base):
+                def process_task(self):
+                    body(self)
+            t = HTask()
         else:
-            if idx % 2 == 0:
-                class HOne(bt.OneShotTask):
-                    def process_task(self):
-                        body(self)
-                t = HOne()
-            else:
-                t = bt.FunctionTask(lambda: body(t))
+            # the function-task factories with every kind of callable
+            fn = as_callable(kind - 1, lambda: body(holder[0]))
+            t = bt.RecurringFunctionTask(None, fn) if spec["rec"] else bt.FunctionTask(fn)
+        holder.append(t)
         t._c14_idx = idx
         return t
 
     def defer(self, spec):
         h = self
 
-        def fn():
+        def work():
             h.out.append(["call", spec["id"]])
             h.calls.append(spec["id"])
             for k in spec["k"]:
                 h.defer(k)
             if spec["r"]:
                 raise Boom(("f", spec["id"]))
-        fn._c14_id = spec["id"]
+        fn = as_callable(spec.get("kind", 0), work)
+        self.fn_ids[id(fn)] = spec["id"]
+        self.fn_keep.append(fn)
         self.subs.append(spec["id"])
         self.bcore.deferred(fn)
 
@@ -259,6 +298,7 @@ class Impl:
         self.tpu = req.get("tpu", 1)
         self.tasks = [self.make_task(i, s) for i, s in enumerate(req["tasks"])]
         self.out, self.calls, self.subs = [], [], []
+        self.fn_ids, self.fn_keep = {}, []
         self.snaps = {}
 
     def save(self, k):
@@ -287,7 +327,7 @@ class Impl:
                 "flags": [bool(t.isScheduled) for t in self.tasks],
                 "ttime": [us(t.taskTime) for t in self.tasks],
                 "trig": bool(self.trigger.flag),
-                "queue": [getattr(f[0], "_c14_id", -1) for f in self.bcore.deferredFns]}
+                "queue": [self.fn_ids.get(id(f[0]), -1) for f in self.bcore.deferredFns]}
 
     # ---- operations ---------------------------------------------------------
     def run_until(self, T, fuel):
@@ -765,7 +805,7 @@ def fn_spec(rng, ids, depth=0):
     if depth < 2:
         for _ in range(rng.choice([0, 0, 0, 1, 2])):
             kids.append(fn_spec(rng, ids, depth + 1))
-    return {"id": i, "r": rng.random() < 0.3, "k": kids}
+    return {"id": i, "r": rng.random() < 0.3, "k": kids, "kind": rng.randrange(KINDS)}
 
 
 def gen_random(rng, n_ops):
@@ -774,10 +814,10 @@ def gen_random(rng, n_ops):
     # four one-shot tasks (two classes), two recurring tasks on disjoint grids that no
     # harness-chosen instant ever touches (instants are 1/64 + m/8 s, slots are multiples of 1/8 s)
     for i in range(4):
-        tasks.append({"rec": False, "raises": rng.random() < 0.3,
+        tasks.append({"rec": False, "raises": rng.random() < 0.3, "kind": rng.randrange(KINDS + 1),
                       "defers": [fn_spec(rng, ids) for _ in range(rng.choice([0, 0, 1, 2]))]})
     for i in range(2):
-        tasks.append({"rec": True, "raises": rng.random() < 0.3,
+        tasks.append({"rec": True, "raises": rng.random() < 0.3, "kind": rng.randrange(KINDS + 1),
                       "defers": [fn_spec(rng, ids) for _ in range(rng.choice([0, 0, 1]))]})
     base = rng.choice([0, 1 << 30]) * 1000000 + G
     # recurring parameters (us): grids k/4 and 1/8 + k/2  — disjoint
@@ -908,36 +948,53 @@ def grid_scenarios(ctx, rng):
 # --------------------------------------------------------------------------
 # deferred stream
 
-def deferred_scenarios(ctx):
+def deferred_scenarios(ctx, kbase=0):
+    """every subset of raising members of batches of 1..6, in four shapes, under both loops.
+    kbase rotates the KIND of callable (plain function, lambda, functools.partial, bound method,
+    callable instance, partial around a builtin) through the members: over kbase = 0..5 every
+    member of every batch is of every kind, raising and not, deferring further work and not."""
     scns = []
+
+    def kd(i):
+        return (kbase + i) % KINDS
     for n in range(1, 7):
         for mask in range(1 << n):
             rs = [(mask >> i) & 1 == 1 for i in range(n)]
             shapes = []
-            shapes.append([{"id": i, "r": rs[i], "k": []} for i in range(n)])
-            shapes.append([{"id": i, "r": rs[i], "k": [{"id": 10 + i, "r": rs[n - 1 - i], "k": []}]}
+            shapes.append([{"id": i, "r": rs[i], "k": [], "kind": kd(i)} for i in range(n)])
+            shapes.append([{"id": i, "r": rs[i], "kind": kd(i),
+                            "k": [{"id": 10 + i, "r": rs[n - 1 - i], "k": [], "kind": kd(i + 3)}]}
                            for i in range(n)])
-            chain = {"id": 30, "r": rs[0], "k": [{"id": 31, "r": rs[-1], "k": [{"id": 32, "r": False, "k": []},
-                                                                             {"id": 33, "r": rs[0], "k": []}]}]}
-            shapes.append([{"id": i, "r": rs[i], "k": ([chain] if i == n // 2 else [])} for i in range(n)])
+            chain = {"id": 30, "r": rs[0], "kind": kd(1),
+                     "k": [{"id": 31, "r": rs[-1], "kind": kd(2),
+                            "k": [{"id": 32, "r": False, "k": [], "kind": kd(3)},
+                                  {"id": 33, "r": rs[0], "k": [], "kind": kd(4)}]}]}
+            shapes.append([{"id": i, "r": rs[i], "kind": kd(i), "k": ([chain] if i == n // 2 else [])}
+                           for i in range(n)])
             for si, fns in enumerate(shapes):
                 for loop in ("once", "run"):
                     adv = {"op": loop, "d": 0}
                     if loop == "run":
                         adv["fuel"] = FUEL
                     scns.append({"tpu": 1, "tasks": [PLAIN], "ops": [{"op": "defer", "f": f} for f in fns] + [adv]})
-            # submitted by a (possibly raising) task body, other tasks due at the same time
+            # submitted by a (possibly raising) task body, other tasks due at the same time;
+            # the tasks are function tasks around every kind of callable as well
             for loop in ("once", "run"):
                 adv = {"op": loop, "d": D}
                 if loop == "run":
                     adv["fuel"] = FUEL
-                tasks = [{"rec": False, "raises": rs[0], "defers": shapes[0]},
-                         {"rec": False, "raises": False, "defers": []},
-                         {"rec": False, "raises": rs[-1], "defers": [{"id": 40, "r": rs[0], "k": []}]}]
+                tasks = [{"rec": False, "raises": rs[0], "defers": shapes[0], "kind": (kbase + n) % (KINDS + 1)},
+                         {"rec": False, "raises": False, "defers": [], "kind": (kbase + n + 2) % (KINDS + 1)},
+                         {"rec": False, "raises": rs[-1], "kind": (kbase + n + 4) % (KINDS + 1),
+                          "defers": [{"id": 40, "r": rs[0], "k": [], "kind": kd(5)}]}]
                 scns.append({"tpu": 1, "tasks": tasks,
                              "ops": [{"op": "at", "t": 0, "when": D}, {"op": "at", "t": 1, "when": D},
                                      {"op": "after", "t": 2, "d": D}, adv]})
     return scns
+
+
+def shard_deferred(ctx, kbase):
+    run_scenarios(ctx, "deferred", deferred_scenarios(ctx, kbase))
 
 
 # --------------------------------------------------------------------------
@@ -954,7 +1011,7 @@ def corpus_scenarios():
 def run(ctx):
     rng = ctx.sub_rng("c14")
     run_scenarios(ctx, "corpus", corpus_scenarios())
-    run_scenarios(ctx, "deferred", deferred_scenarios(ctx))
+    core.run_shards(ctx, "harness.c14", "shard_deferred", list(range(KINDS)))
     run_scenarios(ctx, "grid", grid_scenarios(ctx, rng))
     if ctx.quick:
         core.run_shards(ctx, "harness.c14", "shard_random", [("q%d" % i, 25, 200) for i in range(16)])
@@ -977,7 +1034,7 @@ def search(ctx):
 def shard_search(ctx, spec):
     ctx.model_ok = False
     shard_random(ctx, spec)
-    run_scenarios(ctx, "deferred", deferred_scenarios(ctx))
+    run_scenarios(ctx, "deferred", deferred_scenarios(ctx, int(spec[0][1:]) % KINDS))
 
 
 def replay(ctx, payload):
